@@ -620,7 +620,7 @@ var stateWriters = []stateWriter{
 	{"getoptions", "programTree", "mapKeysToLower", map[string]string{"(*getoptions.GetOpt).SetMapKeysToLower": "const"},
 		map[string]string{"C02": "map keys are stored as written unless the program asked for lower-casing"}},
 	{"option", "Option", "MapKeysToLower", map[string]string{"getoptions.parseCLIArgs": "any"},
-		map[string]string{"C02": "map keys are stored as written unless the program asked for lower-casing"}},
+		map[string]string{"C02": "map keys are stored as written unless the program asked for lower-casing", "C10": "the values the command function sees are parsed under the program-wide settings in force at Parse time, whatever the order of the declarations"}},
 	{"getoptions", "programTree", "ChildCommands", map[string]string{"(*getoptions.programTree).AddChildCommand": "any"},
 		map[string]string{"C10": "the commands a token can select are the declared ones", "C17": "the commands offered are the declared ones"}},
 	{"getoptions", "programTree", "Parent", map[string]string{},
